@@ -271,6 +271,9 @@ func (c *Client) Username() stun.Username {
 
 // Realm return realm.
 func (c *Client) Realm() stun.Realm {
+	c.mutex.RLock()
+	defer c.mutex.RUnlock()
+
 	return c.realm
 }
 
@@ -405,10 +408,14 @@ func (c *Client) sendAllocateRequest(protocol proto.Protocol) ( //nolint:cyclop
 	if err = nonce.GetFrom(res); err != nil {
 		return relayed, lifetime, nonce, reservationToken, err
 	}
-	if err = c.realm.GetFrom(res); err != nil {
+	// Realm() may be called from another goroutine meanwhile.
+	var realm stun.Realm
+	if err = realm.GetFrom(res); err != nil {
 		return relayed, lifetime, nonce, reservationToken, err
 	}
-	c.realm = append([]byte(nil), c.realm...)
+	c.mutex.Lock()
+	c.realm = append([]byte(nil), realm...)
+	c.mutex.Unlock()
 	c.integrity = stun.NewLongTermIntegrity(
 		c.username.String(), c.realm.String(), c.password,
 	)
